@@ -18,6 +18,8 @@ Judge(e) ==
   \cup (IF e.op = "SER2" /\ Key(e) \in DOMAIN seen /\ Allowed(e.o) /\ Allowed(seen[Key(e)].o)
            /\ (seen[Key(e)].o.kind # e.o.kind \/ seen[Key(e)].n # e.n)
         THEN {"ser.deterministic." \o e.fmt} ELSE {})
+  \* the path-taking entry point writes the same bytes as the stream one, whatever the path held before
+  \cup (IF "nfile" \in DOMAIN e /\ e.o.kind = "ok" /\ e.nfile # e.n THEN {"ser.deterministic.file." \o e.fmt} ELSE {})
 Init == l = 1 /\ seen = <<>>
 Next == /\ l <= Len(Trace)
         /\ LET e == Trace[l] v == Judge(e) IN
